@@ -29,10 +29,22 @@ func (h *H) scenario(i int) {
 	} else {
 		h.c.Count("store-stand-in")
 	}
-	profs := []string{"clean", "clean", "bigfile", "clean", "multishard", "applyfail", "forced", "bigfile", "race"}
+	profs := []string{"clean", "clean", "bigfile", "clean", "multishard", "applyfail", "forced", "bigfile", "race", "dual"}
 	h.prof = profs[i%len(profs)]
 	h.c.Count("profile-" + h.prof)
 	h.c.Count(fmt.Sprintf("nodes-%d", h.n))
+	if h.prof == "dual" {
+		h.n = 3
+		h.boot()
+		if h.err == nil {
+			h.twoGroups(true)
+		}
+		if h.err == nil {
+			h.windDown(1)
+		}
+		h.nontrivial = h.err == nil
+		return
+	}
 	h.boot()
 	if h.err != nil {
 		return
@@ -385,6 +397,8 @@ var scripted = []script{
 		h.actElect()
 		h.w(int(h.rgp().MasterPtID), 2, 1, 0)
 	}, 5},
+	// two replica groups on the same three nodes: a node kill hits a member of each
+	{"two-groups", 1, func(h *H) { h.twoGroups(false) }, 3},
 	// truncation by size on the leader while a member is down
 	{"size-trunc", 1, func(h *H) {
 		h.actLead(0)
@@ -399,4 +413,107 @@ var scripted = []script{
 		h.actTruncSize(1)
 		h.actRestart(2)
 	}, 0},
+}
+
+// twoGroups: a second replica group (its own raft group, log directories, shards, meta record) lives
+// on the same nodes; kills, restarts and liveness changes hit the members of both groups at once,
+// writes / flushes / truncations / elections are per group. The model decides each group on its own
+// (op lines of the second group carry the prefix `@1 `).
+func (h *H) twoGroups(random bool) {
+	g := &H{c: h.c, r: h.r.Fork(), n: h.n, root: h.root + "-g1", reported: map[string]int{}, real: h.real, tag: "@1 ", prof: h.prof}
+	h.twin = g
+	g.boot()
+	if g.err != nil {
+		return
+	}
+	both := []*H{h, g}
+	each := func(f func(x *H)) {
+		for _, x := range both {
+			if x.err == nil {
+				f(x)
+			}
+		}
+	}
+	node := func(f func(x *H, n int), n int) { each(func(x *H) { f(x, n) }) }
+	h.actLead(0)
+	g.actLead(1) // the groups have different raft leaders ...
+	g.actSetMaster(2) // ... and different masters
+	h.w(0, 1, 1, 0)
+	g.w(2, 1, 1, 0)
+	steps := 0
+	if random {
+		steps = 16 + h.r.Intn(10)
+	} else {
+		// node 1 dies: group 1 loses its raft leader, group 0 a follower
+		node(func(x *H, n int) { x.actKill(n) }, 1)
+		g.pickLeader()
+		h.w(0, 1, 1, 0)
+		g.w(2, 2, 1, 0)
+		h.flush(0, 1)
+		node(func(x *H, n int) { x.actRestart(n) }, 1)
+		// node 2 dies: group 1 loses its master
+		node(func(x *H, n int) { x.actKill(n) }, 2)
+		node(func(x *H, n int) { x.actMeta(n, false) }, 2)
+		each(func(x *H) { x.actElect() })
+		each(func(x *H) {
+			if x.leader < 0 {
+				x.pickLeader()
+			}
+		})
+		h.w(int(h.rgp().MasterPtID), 2, 1, 0)
+		g.w(int(g.rgp().MasterPtID), 1, 1, 0)
+		node(func(x *H, n int) { x.actRestart(n) }, 2)
+		node(func(x *H, n int) { x.actMeta(n, true) }, 2)
+	}
+	for s := 0; s < steps && h.err == nil && g.err == nil; s++ {
+		x := both[h.r.Intn(2)]
+		for _, y := range both {
+			if y.leader < 0 || !y.mir[y.leader].up {
+				y.pickLeader()
+			}
+		}
+		if h.err != nil || g.err != nil {
+			break
+		}
+		down := h.n - h.upCount()
+		d := h.r.Intn(100)
+		switch {
+		case d < 45:
+			p := int(x.rgp().MasterPtID)
+			if !x.mir[p].up {
+				p = x.anyUp()
+			}
+			x.nextU++
+			x.actWrite(p, h.r.Intn(4), x.nextU, 1, 0)
+		case d < 60:
+			x.flush(x.anyUp(), 1)
+		case d < 72:
+			if 2*(down+1) < h.n {
+				n := h.anyUp()
+				wasMaster := []bool{int(h.rgp().MasterPtID) == n, int(g.rgp().MasterPtID) == n}
+				node(func(y *H, n int) { y.actKill(n) }, n)
+				if wasMaster[0] || wasMaster[1] {
+					node(func(y *H, n int) { y.actMeta(n, false) }, n)
+					each(func(y *H) { y.actElect() })
+				}
+			}
+		case d < 88:
+			for n := 0; n < h.n; n++ {
+				if !h.mir[n].up {
+					node(func(y *H, n int) { y.actRestart(n) }, n)
+					if !h.cl.alive[n] {
+						node(func(y *H, n int) { y.actMeta(n, true) }, n)
+					}
+					break
+				}
+			}
+		case d < 94:
+			x.actTrunc(false)
+		default:
+			x.actSetMaster(x.anyUp())
+		}
+	}
+	if g.err == nil {
+		g.windDown(1)
+	}
 }
